@@ -277,3 +277,617 @@ func isGlobalLoad(v ssa.Value, pkg, name string) bool {
 	g, ok := u.X.(*ssa.Global)
 	return ok && g.Name() == name && g.Pkg != nil && g.Pkg.Pkg.Name() == pkg
 }
+
+func init() {
+	register(&Rule{ID: "C12.R13", Props: []string{"C12", "C19"}, Engine: "E3-mustpass",
+		Title:   "an encoder hands its header the body it has just built: in every chunk/parameter/error-cause marshal that ends in the header's marshal, each path to that call has stored the header's raw body (and, for chunks, the type) — a dropped store emits a stale or empty body (e.g. a HEARTBEAT ACK without the echoed info, which yields no round-trip sample)",
+		MinInst: 20,
+		Run: func(c *RuleCtx) {
+			hdrs := map[*ssa.Function]string{}
+			for _, n := range []string{"chunkHeader.marshal", "paramHeader.marshal", "errorCauseHeader.marshal"} {
+				hdrs[c.Fn(n)] = strings.Split(n, ".")[0]
+			}
+			ks := keyer{}
+			for _, fn := range c.P.Funcs {
+				name := c.P.FuncName(fn)
+				if fn.Parent() != nil || !(strings.HasSuffix(name, ".marshal") || strings.HasSuffix(name, ".Marshal")) || hdrs[fn] != "" {
+					continue
+				}
+				forEachInstr(fn, func(in ssa.Instruction) {
+					ci, ok := in.(ssa.CallInstruction)
+					if !ok {
+						return
+					}
+					hn := hdrs[ci.Common().StaticCallee()]
+					if hn == "" {
+						return
+					}
+					// does the encoder build a body at all? (COOKIE ACK, SHUTDOWN ACK … have none)
+					builds := false
+					forEachInstr(fn, func(y ssa.Instruction) {
+						switch z := y.(type) {
+						case *ssa.MakeSlice:
+							builds = true
+						case ssa.CallInstruction:
+							if b, isB := z.Common().Value.(*ssa.Builtin); isB && b.Name() == "append" {
+								builds = true
+							}
+							if sc := z.Common().StaticCallee(); sc != nil && (strings.HasPrefix(sc.Name(), "PutUint") || (c.P.inPkg(sc) && hdrs[sc] == "" && strings.HasSuffix(strings.ToLower(c.P.FuncName(sc)), ".marshal"))) {
+								builds = true
+							}
+						}
+					})
+					var need []string
+					if builds {
+						need = append(need, "raw")
+					}
+					if hn == "chunkHeader" {
+						need = append(need, "typ")
+					}
+					for _, fname := range need {
+						f := c.P.Field(hn, fname)
+						if f == nil {
+							c.Unresolved("field " + hn + "." + fname)
+							continue
+						}
+						ok, bad := MustPassFromBlock(fn.Blocks[0], func(x ssa.Instruction) bool {
+							if st, isSt := x.(*ssa.Store); isSt && fieldOfAddr(st.Addr) == f {
+								return true
+							}
+							return false
+						}, PathOpts{Fail: func(x ssa.Instruction) bool { return x == in }, ExitOK: true})
+						_ = bad
+						c.Check(ok, ks.key("header-"+fname+"-set@"+name), c.Pos(in), hn+"."+fname+" is stored on every path to the header's marshal", "a path reaches "+hn+".marshal without storing "+hn+"."+fname+": the emitted "+strings.TrimSuffix(strings.TrimSuffix(name, ".marshal"), ".Marshal")+" carries a stale or empty "+fname)
+					}
+				})
+			}
+		}})
+}
+
+func init() {
+	register(&Rule{ID: "C01.R11", Props: []string{"C01", "C06"}, Engine: "E3-mustpass",
+		Title:   "fragment lists are sorted after every insertion: wherever a fragment is appended to chunkSet.chunks, chunkSetMID.chunks or reassemblyQueue.unorderedChunks, every path onwards passes a sort of that list (by TSN / FSN) — completeness checks, the contiguity scan and the copy-out in read() all index these lists positionally, so fragments that arrive out of order would otherwise be reassembled in arrival order",
+		MinInst: 3,
+		Run: func(c *RuleCtx) {
+			lists := []*types.Var{c.field("chunkSet", "chunks"), c.field("chunkSetMID", "chunks"), c.field("reassemblyQueue", "unorderedChunks")}
+			// in-package functions that sort their slice argument
+			sorters := map[*ssa.Function]bool{}
+			for _, fn := range c.P.Funcs {
+				if fn.Parent() != nil {
+					continue
+				}
+				forEachInstr(fn, func(in ssa.Instruction) {
+					if ci, ok := in.(ssa.CallInstruction); ok {
+						if sc := ci.Common().StaticCallee(); sc != nil && sc.Pkg != nil && (sc.Pkg.Pkg.Path() == "sort" || sc.Pkg.Pkg.Path() == "slices") && strings.Contains(sc.Name(), "S") {
+							switch sc.Name() {
+							case "Slice", "SliceStable", "Sort", "Stable", "SortFunc", "SortStableFunc":
+								sorters[fn] = true
+							}
+						}
+					}
+				})
+			}
+			ks := keyer{}
+			n := 0
+			for _, f := range lists {
+				for _, a := range c.P.Writes(f) {
+					call, ok := unconv(a.Val).(*ssa.Call)
+					if !ok {
+						continue
+					}
+					b, isB := call.Call.Value.(*ssa.Builtin)
+					if !isB || b.Name() != "append" || !IsLoadOf(f)(call.Call.Args[0]) {
+						continue
+					}
+					// appending a whole slice (extraction, copy) is not an insertion of one fragment
+					if len(call.Call.Args) == 2 {
+						if _, isSlice := call.Call.Args[1].(*ssa.Slice); isSlice {
+							if al, isAl := call.Call.Args[1].(*ssa.Slice).X.(*ssa.Alloc); !isAl || al == nil {
+								continue
+							}
+						}
+					}
+					n++
+					ok2, bad := MustPass(a.Instr, func(x ssa.Instruction) bool {
+						ci, isCall := x.(ssa.CallInstruction)
+						if !isCall {
+							return false
+						}
+						sc := ci.Common().StaticCallee()
+						if sc == nil {
+							return false
+						}
+						direct := sc.Pkg != nil && (sc.Pkg.Pkg.Path() == "sort" || sc.Pkg.Pkg.Path() == "slices")
+						if !sorters[sc] && !direct {
+							return false
+						}
+						for _, arg := range ci.Common().Args {
+							if IsLoadOf(f)(arg) {
+								return true
+							}
+						}
+						return false
+					}, nil)
+					c.Check(ok2, ks.key("sorted-after-insert:"+f.Name()+"@"+c.P.FuncName(a.Fn)), c.Pos(a.Instr), "every path after the append sorts the list", "a fragment is appended to "+f.Name()+" and a path leaves without sorting it ("+c.P.InstrPos(bad)+"): out-of-order fragments are reassembled in arrival order")
+				}
+			}
+			c.Check(n >= 1, "insert-sites", "", fmt.Sprintf("%d insertion sites", n), "no insertion site found")
+		}})
+}
+
+func init() {
+	register(&Rule{ID: "C07.R9", Props: []string{"C07", "C06", "C01"}, Engine: "E3",
+		Title:   "whoever makes a message readable wakes the reader: Stream.handleData and the four handleForwardTSNFor* wrappers each sample isReadable() and contain a readNotifier.Signal()/Broadcast() whose only condition is that sample (no stream or association field) — without it a reader blocked in ReadSCTP sleeps on although the purge or the new chunk has made the next message deliverable",
+		MinInst: 5,
+		Run: func(c *RuleCtx) {
+			ir := c.Fn("reassemblyQueue.isReadable")
+			rn := c.field("Stream", "readNotifier")
+			ks := keyer{}
+			for _, hn := range []string{"Stream.handleData", "Stream.handleForwardTSNForOrdered", "Stream.handleForwardTSNForUnordered", "Stream.handleForwardTSNForOrderedMID", "Stream.handleForwardTSNForUnorderedMID"} {
+				h := c.Fn(hn)
+				nSample, nWake := 0, 0
+				var all []*ssa.Function
+				seenF := map[*ssa.Function]bool{}
+				var addF func(f *ssa.Function)
+				addF = func(f *ssa.Function) {
+					if f == nil || seenF[f] {
+						return
+					}
+					seenF[f] = true
+					all = append(all, f)
+					for _, an := range f.AnonFuncs {
+						addF(an)
+					}
+				}
+				for _, g := range c.P.Region(h) {
+					addF(g)
+				}
+				for _, g := range all {
+					nSample += len(callsIn(g, ir))
+					for _, m := range []string{"Signal", "Broadcast"} {
+						for _, ci := range callsOnField(g, rn, m) {
+							in := ci.(ssa.Instruction)
+							var bad []string
+							for _, f := range localFactsUpTo(in, h) {
+								if hit, w := readsFieldOf(f.Cond, "Stream", 0, map[ssa.Value]bool{}); hit && !strings.HasSuffix(w, ".reassemblyQueue") {
+									bad = append(bad, w)
+								}
+								if hit, w := readsFieldOf(f.Cond, "Association", 0, map[ssa.Value]bool{}); hit {
+									bad = append(bad, w)
+								}
+							}
+							if len(bad) == 0 {
+								nWake++
+							} else {
+								c.Fail(ks.key("wake-condition@"+hn), c.Pos(in), "the wake-up also depends on "+strings.Join(bad, ", ")+": a readable message may not wake the reader")
+							}
+						}
+					}
+				}
+				c.Check(nSample >= 1 && nWake >= 1, ks.key("wakes-when-readable@"+hn), c.P.Pos(h.Pos()), fmt.Sprintf("%d readability sample(s), %d wake-up(s) conditioned on nothing else", nSample, nWake), fmt.Sprintf("%s samples readability %d time(s) but has %d usable wake-up(s): a reader blocked in ReadSCTP is not woken when this call makes a message deliverable", hn, nSample, nWake))
+			}
+		}})
+}
+
+func init() {
+	register(&Rule{ID: "C07.R10", Props: []string{"C07", "C11"}, Engine: "E6",
+		Title:   "a FORWARD-TSN purges up to and including the number it names: in the reassembly queue, incomplete ordered sets are dropped exactly for SSN/MID {before, equal} the forwarded one, and unordered fragments are dropped exactly for TSN {before, equal} the new cumulative TSN — an exclusive bound leaves the fragments of the very message that was abandoned in the queue for ever (bytes counted against the window, and for ordered streams a set the advanced nextSSN will never release)",
+		MinInst: 3,
+		Run: func(c *RuleCtx) {
+			sub := c.Fn("reassemblyQueue.subtractNumBytes")
+			mask := snaAll &^ snaAntipode
+			want := (snaBefore | snaEqual) & mask
+			// ordered variants: facts at the byte release of a dropped set
+			for _, o := range []struct {
+				fn   string
+				x    *types.Var
+				what string
+			}{
+				{"reassemblyQueue.forwardTSNForOrdered", c.field("chunkSet", "ssn"), "SSN"},
+				{"reassemblyQueue.forwardTSNForOrderedMID", c.field("chunkSetMID", "mid"), "MID"},
+				{"reassemblyQueue.forwardTSNForUnorderedMID", c.field("chunkSetMID", "mid"), "MID"},
+			} {
+				fn := c.P.Fn(o.fn)
+				if fn == nil {
+					continue
+				}
+				got, n := 0, 0
+				for _, g := range c.P.Region(fn) {
+					for _, cs := range callsIn(g, sub) {
+						n++
+						facts := localFactsUpTo(cs.(ssa.Instruction), fn)
+						facts = append(facts, DomFactsX(cs.(ssa.Instruction).Block())...)
+						isKey := func(v ssa.Value) bool { // the key of a map range
+							ex, ok := unconv(v).(*ssa.Extract)
+							if !ok || ex.Index != 1 {
+								return false
+							}
+							_, isNext := ex.Tuple.(*ssa.Next)
+							return isNext
+						}
+						s := serialSituations(facts, Or(IsLoadOf(o.x), isKey), IsParam(fn, 1))
+						if s != snaAll {
+							got |= s
+						}
+					}
+				}
+				if n == 0 {
+					continue // this variant releases bytes elsewhere (e.g. deletes a map entry): nothing to judge here
+				}
+				c.Check(got&mask == want, "purge-bound:"+o.fn, c.P.Pos(fn.Pos()), "sets with "+o.what+" {before,equal} the forwarded one are dropped", "incomplete sets are dropped for "+o.what+" "+snaSetName(got&mask)+" relative to the forwarded one (want {before,equal}): the abandoned message's own fragments stay queued")
+			}
+			// the expected-next counter moves past the forwarded number whenever it is {before,equal} it
+			for _, o := range []struct {
+				fn   string
+				next *types.Var
+			}{
+				{"reassemblyQueue.forwardTSNForOrdered", c.field("reassemblyQueue", "nextSSN")},
+				{"reassemblyQueue.forwardTSNForOrderedMID", c.field("reassemblyQueue", "nextMID")},
+			} {
+				fn := c.Fn(o.fn)
+				got, n := 0, 0
+				for _, a := range c.storesInRegion(fn, o.next) {
+					n++
+					facts := append(localFactsUpTo(a.Instr, fn), DomFactsX(a.Instr.Block())...)
+					if s := serialSituations(facts, IsLoadOf(o.next), IsParam(fn, 1)); s != snaAll {
+						got |= s
+					} else {
+						got |= snaAll // unconditional store: moves in every situation
+					}
+				}
+				okN := n >= 1 && got&(snaBefore|snaEqual) == (snaBefore|snaEqual) && got&snaAfter == 0
+				c.Check(okN, "next-moves-past:"+o.next.Name(), c.P.Pos(fn.Pos()), o.next.Name()+" is advanced when it is {before,equal} the forwarded number and never moved back", o.next.Name()+" is advanced for "+snaSetName(got&mask)+" (want {before,equal}): when the abandoned message is exactly the one the reader waits for, the stream stays blocked behind it")
+			}
+			// unordered fragments: the scan over unorderedChunks continues exactly while tsn is {before,equal}
+			fn := c.Fn("reassemblyQueue.forwardTSNForUnordered")
+			tsn := c.field("chunkPayloadData", "tsn")
+			cont, nTests := 0, 0
+			forEachInstr(fn, func(in ssa.Instruction) {
+				ifi, ok := in.(*ssa.If)
+				if !ok {
+					return
+				}
+				cond, taken := normCond(ifi.Cond, true)
+				call, isCall := cond.(*ssa.Call)
+				if !isCall || len(call.Call.Args) != 2 {
+					return
+				}
+				_, rel, isSna := snaHelper(call.Call.StaticCallee())
+				if !isSna {
+					return
+				}
+				a, b := call.Call.Args[0], call.Call.Args[1]
+				mirror := false
+				switch {
+				case IsLoadOf(tsn)(a) && IsParam(fn, 1)(b):
+				case IsParam(fn, 1)(a) && IsLoadOf(tsn)(b):
+					mirror = true
+				default:
+					return
+				}
+				lp := loopBlocks(ifi.Block())
+				s0, s1 := ifi.Block().Succs[0], ifi.Block().Succs[1]
+				// which side keeps purging: the one that stays in the loop / reaches the byte release
+				stay := -1
+				switch {
+				case lp[s0] && !lp[s1]:
+					stay = 0
+				case lp[s1] && !lp[s0]:
+					stay = 1
+				}
+				if stay < 0 {
+					return
+				}
+				nTests++
+				set := snaSet(rel, (stay == 0) == taken)
+				if mirror {
+					set = snaMirror(set)
+				}
+				cont |= set
+			})
+			if nTests == 0 {
+				c.Fail("purge-bound:unordered", c.P.Pos(fn.Pos()), "UNDECIDED: no serial test of a fragment's TSN against the new cumulative TSN decides the purge scan")
+			} else {
+				c.Check(cont&mask == want, "purge-bound:unordered", c.P.Pos(fn.Pos()), "fragments with TSN {before,equal} the new cumulative TSN are purged", "unordered fragments are purged for TSN "+snaSetName(cont&mask)+" relative to the new cumulative TSN (want {before,equal}): a fragment carrying exactly the forwarded TSN stays queued")
+			}
+		}})
+}
+
+func init() {
+	register(&Rule{ID: "C18.R12", Props: []string{"C18"}, Engine: "E3",
+		Title:   "a new read deadline re-arms reading after a timeout and owns a fresh cancel channel: SetReadDeadline clears a latched ErrReadDeadlineExceeded (store of nil to readErr under errors.Is(readErr, ErrReadDeadlineExceeded)), and the timer goroutine it starts waits on a channel made by this call and recorded in readTimeoutCancel — otherwise every read after the first timeout keeps failing, or a replaced deadline can no longer be cancelled and fires on a reader that has none",
+		MinInst: 3,
+		Run: func(c *RuleCtx) {
+			fn := c.Fn("Stream.SetReadDeadline")
+			re := c.field("Stream", "readErr")
+			rc := c.field("Stream", "readTimeoutCancel")
+			cleared := false
+			for _, a := range c.storesInRegion(fn, re) {
+				if !isNilConst(a.Val) {
+					continue
+				}
+				for _, f := range append(localFactsUpTo(a.Instr, fn), DomFactsX(a.Instr.Block())...) {
+					if call, ok := f.Cond.(*ssa.Call); ok && f.Taken {
+						if sc := call.Call.StaticCallee(); sc != nil && sc.Name() == "Is" && len(call.Call.Args) == 2 && isGlobalLoad(call.Call.Args[1], "sctp", "ErrReadDeadlineExceeded") {
+							cleared = true
+						}
+					}
+					if b, ok := f.Cond.(*ssa.BinOp); ok && (b.Op == token.EQL) == f.Taken && (b.Op == token.EQL || b.Op == token.NEQ) {
+						if isGlobalLoad(b.X, "sctp", "ErrReadDeadlineExceeded") || isGlobalLoad(b.Y, "sctp", "ErrReadDeadlineExceeded") {
+							cleared = true
+						}
+					}
+				}
+			}
+			c.Check(cleared, "timeout-cleared-by-new-deadline", c.P.Pos(fn.Pos()), "a latched deadline error is cleared", "SetReadDeadline never clears a latched ErrReadDeadlineExceeded: after one timeout every later Read fails at once, whatever deadline is set")
+			// the goroutine's cancel channel
+			var mk ssa.Instruction
+			for _, a := range c.storesInRegion(fn, rc) {
+				if _, isMk := unconv(a.Val).(*ssa.MakeChan); isMk {
+					mk = a.Instr
+				}
+			}
+			c.Check(mk != nil, "fresh-cancel-channel", c.P.Pos(fn.Pos()), "readTimeoutCancel receives a channel made by this call", "SetReadDeadline no longer records a fresh cancel channel in readTimeoutCancel: the timer goroutine of this deadline cannot be cancelled by the next call")
+			nGo := 0
+			for _, g := range c.P.Region(fn) {
+				forEachInstr(g, func(in ssa.Instruction) {
+					gi, ok := in.(*ssa.Go)
+					if !ok {
+						return
+					}
+					nGo++
+					okArg := false
+					vals := append([]ssa.Value{}, gi.Call.Args...)
+					if mc, isMc := gi.Call.Value.(*ssa.MakeClosure); isMc {
+						vals = append(vals, mc.Bindings...)
+					}
+					for _, a := range vals {
+						if _, isMk := unconv(a).(*ssa.MakeChan); isMk || IsLoadOf(rc)(a) {
+							okArg = true
+						}
+					}
+					c.Check(okArg && (mk == nil || InstrDominates(mk, in)), "goroutine-waits-on-recorded-channel", c.Pos(in), "the timer goroutine is handed the channel recorded in readTimeoutCancel", "the timer goroutine is not handed the channel recorded in readTimeoutCancel (or it is recorded after the goroutine starts)")
+				})
+			}
+			c.Check(nGo >= 1, "deadline-goroutine", c.P.Pos(fn.Pos()), fmt.Sprintf("%d timer goroutine(s)", nGo), "SetReadDeadline starts no timer goroutine")
+		}})
+}
+
+func init() {
+	register(&Rule{ID: "C02.R7", Props: []string{"C02", "C19"}, Engine: "E3",
+		Title:   "new data on the wire means T3-rtx is running: the function that pops pending DATA for transmission starts t3RTX under no other condition than 'something was popped' — if the whole first flight is lost no SACK ever arrives, and T3 is the only timer that retransmits for as long as the association lives",
+		MinInst: 1,
+		Run: func(c *RuleCtx) {
+			pop := c.Fn("Association.popPendingDataChunksToSend")
+			t3 := c.field("Association", "t3RTX")
+			ks := keyer{}
+			n := 0
+			for _, site := range c.P.CallSitesOf(pop) {
+				fn := site.Fn
+				n++
+				good := 0
+				for _, ci := range callsOnField(fn, t3, "start") {
+					in := ci.(ssa.Instruction)
+					if !CanReach(site.Instr, in) {
+						continue
+					}
+					clean := true
+					for _, f := range DomFacts(in.Block()) {
+						if !derives(f.Cond, func(v ssa.Value) bool {
+							if ex, ok := v.(*ssa.Extract); ok {
+								return ex.Tuple == site.Instr.(ssa.Value)
+							}
+							return v == site.Instr.(ssa.Value)
+						}, map[ssa.Value]bool{}) {
+							// a condition established before the pop (it guards the pop as well) is harmless
+							if DominatedByExt(site.Instr, func(cv ssa.Value, tk bool) bool { return cv == f.Cond && tk == f.Taken }) {
+								continue
+							}
+							clean = false
+						}
+					}
+					if clean {
+						good++
+					}
+				}
+				c.Check(good >= 1, ks.key("t3-started-with-new-data@"+c.P.FuncName(fn)), c.Pos(site.Instr), "t3RTX.start() follows the pop, conditioned only on its result", "after popping new DATA for transmission "+c.P.FuncName(fn)+" does not (unconditionally on the pop's result) start T3-rtx: a lost first flight is never retransmitted")
+			}
+			c.Check(n >= 1, "pop-sites", "", fmt.Sprintf("%d pop site(s)", n), "popPendingDataChunksToSend has no caller")
+		}})
+
+	register(&Rule{ID: "C14.R11", Props: []string{"C14"}, Engine: "E3",
+		Title:   "every reconfiguration request gets its own sequence number: generateNextRSN advances myNextRSN by one on every path (a repeated number makes the peer treat the second stream reset as a retransmission of the first and answer it without resetting anything)",
+		MinInst: 1,
+		Run: func(c *RuleCtx) {
+			fn := c.Fn("Association.generateNextRSN")
+			f := c.field("Association", "myNextRSN")
+			ok := entryMustPass(fn, func(in ssa.Instruction) bool {
+				st, isSt := in.(*ssa.Store)
+				if !isSt || fieldOfAddr(st.Addr) != f {
+					return false
+				}
+				return BinV(token.ADD, IsLoadOf(f), IsConstInt(1))(st.Val)
+			})
+			c.Check(ok, "rsn-advances", c.P.Pos(fn.Pos()), "myNextRSN ← myNextRSN + 1 on every path", "a path through generateNextRSN does not advance myNextRSN by one: two requests share a sequence number")
+		}})
+
+	register(&Rule{ID: "C03.R16", Props: []string{"C03", "C19", "C08", "C14"}, Engine: "E2-exhaustive",
+		Title:   "every chunk handler is dispatched: each Association.handle<X> method whose parameter is a decoded chunk type is called from the dispatch region of handleChunk — a handler that lost its call site silently ignores that chunk kind (a HEARTBEAT ACK then yields no round-trip sample, a SHUTDOWN COMPLETE never closes …)",
+		MinInst: 12,
+		Run: func(c *RuleCtx) {
+			hc := c.Fn("Association.handleChunk")
+			reach := c.P.TransitiveCallees(hc)
+			ks := keyer{}
+			for _, fn := range c.P.Funcs {
+				name := c.P.FuncName(fn)
+				if fn.Parent() != nil || fn.Synthetic != "" || !strings.HasPrefix(name, "Association.handle") || fn == hc {
+					continue
+				}
+				isChunkHandler := false
+				for _, p := range fn.Params[1:] {
+					if strings.HasPrefix(typeShort(p.Type()), "*chunk") {
+						isChunkHandler = true
+					}
+				}
+				if !isChunkHandler {
+					continue
+				}
+				c.Check(reach[fn], ks.key("dispatched:"+name), c.P.Pos(fn.Pos()), "reachable from handleChunk", name+" is not reachable from handleChunk: chunks of its kind are ignored")
+			}
+		}})
+
+	register(&Rule{ID: "C14.R12", Props: []string{"C14"}, Engine: "E3",
+		Title:   "both parameters of a RE-CONFIG chunk are processed: handleReconfig hands paramA and (when present) paramB to handleReconfigParam — a peer may bundle its own reset request with the response to ours; dropping the second parameter loses one of them",
+		MinInst: 2,
+		Run: func(c *RuleCtx) {
+			fn := c.Fn("Association.handleReconfig")
+			hp := c.Fn("Association.handleReconfigParam")
+			for _, pn := range []string{"paramA", "paramB"} {
+				f := c.field("chunkReconfig", pn)
+				n := 0
+				for _, g := range c.P.Region(fn) {
+					for _, cs := range callsIn(g, hp) {
+						for _, a := range cs.Common().Args {
+							if IsLoadOf(f)(a) {
+								n++
+							}
+						}
+					}
+				}
+				c.Check(n >= 1, "reconfig-param-processed:"+pn, c.P.Pos(fn.Pos()), pn+" is handed to handleReconfigParam", "handleReconfig never processes "+pn)
+			}
+		}})
+
+	register(&Rule{ID: "C17.R12", Props: []string{"C17", "C07"}, Engine: "E3",
+		Title:   "a forward-TSN chunk of the variant that was not negotiated is refused: in handleForwardTSN the cumulative-TSN advance and stream skips are dominated by useForwardTSN, in handleIForwardTSN by useIForwardTSN (the variant follows the negotiated interleaving mode on both sides)",
+		MinInst: 4,
+		Run: func(c *RuleCtx) {
+			adv := c.Fn("Association.handlePeerLastTSNAndAcknowledgement")
+			ks := keyer{}
+			for _, o := range []struct{ h, flag string }{{"Association.handleForwardTSN", "useForwardTSN"}, {"Association.handleIForwardTSN", "useIForwardTSN"}} {
+				h := c.Fn(o.h)
+				fl := c.field("Association", o.flag)
+				for _, g := range c.P.Region(h) {
+					forEachInstr(g, func(in ssa.Instruction) {
+						ci, ok := in.(ssa.CallInstruction)
+						if !ok {
+							return
+						}
+						sc := ci.Common().StaticCallee()
+						if sc == nil || (sc != adv && !strings.HasPrefix(c.P.FuncName(sc), "Stream.handleForwardTSNFor")) {
+							return
+						}
+						c.Dom(ks.key("variant-negotiated:"+c.P.FuncName(sc)+"@"+o.h), in, BoolCond(IsLoadOf(fl), true), o.flag+" == true")
+					})
+				}
+			}
+		}})
+}
+
+func init() {
+	register(&Rule{ID: "C04.R12", Props: []string{"C04", "C10", "C13"}, Engine: "E2-sibling",
+		Title:   "every handshake path records what the peer told it: handleInit, handleInitAck and initWithOutOfBandTokens (the three places that take a peer INIT/INIT-ACK/token) each store the peer's verification tag and the negotiated stream counts, seed the peer's receive window (setRWND) and the received-TSN base (payloadQueue.init), and evaluate the peer's Zero-Checksum-Acceptable parameter; the INIT-ACK built by handleInit carries the peer's tag — a path that forgets one of them leaves the two ends disagreeing (packets sent with tag 0 are discarded by a conforming peer; zero checksum is never or wrongly used)",
+		MinInst: 15,
+		Run: func(c *RuleCtx) {
+			pvt := c.field("Association", "peerVerificationTag")
+			in, out := c.field("Association", "myMaxNumInboundStreams"), c.field("Association", "myMaxNumOutboundStreams")
+			szc := c.field("Association", "sendZeroChecksum")
+			setR := c.Fn("Association.setRWND")
+			pqInit := c.Fn("receivePayloadQueue.init")
+			for _, hn := range []string{"Association.handleInit", "Association.handleInitAck", "Association.initWithOutOfBandTokens"} {
+				h := c.Fn(hn)
+				reg := c.P.Region(h)
+				stores := func(f *types.Var) int {
+					n := 0
+					for _, g := range reg {
+						n += len(c.storesIn(g, f))
+					}
+					return n
+				}
+				calls := func(fn *ssa.Function) int {
+					return len(callsInDeep(h, fn, 2))
+				}
+				c.Check(stores(pvt) >= 1, "records-peer-tag@"+hn, c.P.Pos(h.Pos()), "peerVerificationTag is stored", hn+" never stores the peer's verification tag: every later packet is sent with the wrong tag")
+				c.Check(stores(in) >= 1 && stores(out) >= 1, "records-stream-counts@"+hn, c.P.Pos(h.Pos()), "negotiated stream counts are stored", hn+" does not store the negotiated inbound/outbound stream counts")
+				c.Check(calls(setR) >= 1, "seeds-peer-window@"+hn, c.P.Pos(h.Pos()), "setRWND is called with the peer's a_rwnd", hn+" never seeds the peer's receive window")
+				c.Check(calls(pqInit) >= 1, "seeds-tsn-base@"+hn, c.P.Pos(h.Pos()), "payloadQueue.init is called with the peer's initial TSN", hn+" never initialises the received-TSN base from the peer's initial TSN")
+				nz := stores(szc)
+				if f := c.P.Fn("Association.setSendZeroChecksum"); f != nil {
+					nz += calls(f)
+				}
+				c.Check(nz >= 1, "evaluates-zero-checksum@"+hn, c.P.Pos(h.Pos()), "the peer's Zero-Checksum-Acceptable parameter is evaluated", hn+" never evaluates the peer's Zero-Checksum-Acceptable parameter")
+			}
+			// the INIT ACK carries the peer's tag
+			hi := c.Fn("Association.handleInit")
+			vt := c.field("packet", "verificationTag")
+			okTag := false
+			for _, g := range c.P.Region(hi) {
+				for _, a := range c.storesIn(g, vt) {
+					if IsLoadOf(pvt)(a.Val) || derives(a.Val, IsLoadOf(c.field("chunkInitCommon", "initiateTag")), map[ssa.Value]bool{}) {
+						okTag = true
+					}
+				}
+			}
+			if !okTag {
+				// built through createPacket(), which reads peerVerificationTag
+				if cp := c.P.Fn("Association.createPacket"); cp != nil && len(callsInDeep(hi, cp, 2)) > 0 {
+					okTag = true
+				}
+			}
+			c.Check(okTag, "init-ack-carries-peer-tag", c.P.Pos(hi.Pos()), "the INIT ACK's verification tag is the peer's initiate tag", "the INIT ACK built by handleInit does not carry the peer's initiate tag: the peer discards it and the handshake never completes")
+		}})
+}
+
+func init() {
+	register(&Rule{ID: "C05.R10", Props: []string{"C05", "C11"}, Engine: "E3",
+		Title:   "duplicate TSNs are reported once: popDuplicates hands the recorded duplicates to the SACK builder and leaves the record empty on every path (otherwise every later SACK repeats them and the list grows without bound under a duplicating network)",
+		MinInst: 1,
+		Run: func(c *RuleCtx) {
+			fn := c.Fn("receivePayloadQueue.popDuplicates")
+			f := c.field("receivePayloadQueue", "dupTSN")
+			ok := entryMustPass(fn, func(in ssa.Instruction) bool {
+				st, isSt := in.(*ssa.Store)
+				if !isSt || fieldOfAddr(st.Addr) != f {
+					return false
+				}
+				switch x := unconv(st.Val).(type) {
+				case *ssa.Const:
+					return true // nil
+				case *ssa.MakeSlice:
+					return IsConstInt(0)(x.Len)
+				case *ssa.Slice:
+					// a zero-length slice: x[:0] or a literal []T{}
+					if x.High != nil && IsConstInt(0)(x.High) {
+						return true
+					}
+					if al, isAl := x.X.(*ssa.Alloc); isAl {
+						if arr, isArr := al.Type().(*types.Pointer).Elem().Underlying().(*types.Array); isArr && arr.Len() == 0 {
+							return true
+						}
+					}
+				}
+				return false
+			})
+			c.Check(ok, "duplicates-reported-once", c.P.Pos(fn.Pos()), "the record is emptied on every path", "a path through popDuplicates keeps the recorded duplicates: they are reported again in every SACK and accumulate")
+		}})
+
+	register(&Rule{ID: "C06.R8", Props: []string{"C06"}, Engine: "E2",
+		Title:   "the configured reliability policy is the one applied: setReliabilityParams stores the unordered flag, the reliability type and the reliability value it is given (a dropped store leaves the limit at its previous value — e.g. 0 retransmissions where 5 were asked for)",
+		MinInst: 3,
+		Run: func(c *RuleCtx) {
+			fn := c.Fn("Stream.setReliabilityParams")
+			for _, fname := range []string{"unordered", "reliabilityType", "reliabilityValue"} {
+				f := c.field("Stream", fname)
+				ok := false
+				for _, a := range c.storesInRegion(fn, f) {
+					if _, isP := resolveParam(unconv(a.Val)).(*ssa.Parameter); isP {
+						ok = true
+					}
+					if _, isP := unconv(a.Val).(*ssa.Parameter); isP {
+						ok = true
+					}
+				}
+				c.Check(ok, "policy-stored:"+fname, c.P.Pos(fn.Pos()), fname+" ← parameter", "setReliabilityParams does not store "+fname+" from its parameter")
+			}
+		}})
+}
